@@ -126,6 +126,10 @@ class E2:
             # check; Kani renders that panic's formatted message as a placeholder, so it is recognised
             # by its location in core::slice::copy_from_slice
             unexpected = [(d, w) for d, w in r["failed"] if not any(e in d for e in EXPECTED_PANICS) and "copy_from_slice" not in w]
+            if meta.get("group") == "sse":
+                # the heap buffers of an ill-shaped SSE call hold arbitrary floats: IEEE NaN results are
+                # not a violation (Kani flags them as "NaN on addition" etc.)
+                unexpected = [(d, w) for d, w in unexpected if not d.startswith("NaN on ")]
             if r["cover_total"] and r["cover_sat"]:
                 return "violated", "an ill-shaped call returned normally (cover after the call is satisfiable)"
             if unexpected:
